@@ -67,9 +67,9 @@ theorem degree_toPoly_lt (bs : Bits) : degree (toPoly bs) < bs.length := by
     rw [toPoly_cons]
     refine lt_of_le_of_lt (degree_add_le _ _) (max_lt ?_ ?_)
     · refine lt_of_le_of_lt (degree_bitC_mul_X_pow_le b _) ?_
-      simp
+      exact_mod_cast Nat.lt_succ_self _
     · refine lt_trans ih ?_
-      simp
+      exact_mod_cast Nat.lt_succ_self _
 
 theorem toPoly_xor (a b : Bits) (h : a.length = b.length) :
     toPoly (xorBits a b) = toPoly a + toPoly b := by
@@ -84,6 +84,9 @@ theorem toPoly_xor (a b : Bits) (h : a.length = b.length) :
       rw [xorBits_cons_cons, toPoly_cons, toPoly_cons, toPoly_cons, ih ys h, bitC_xor,
         xorBits_length, h, Nat.min_self]
       ring
+
+theorem toPoly_sel (c : Bool) (p : Bits) : toPoly (sel c p) = bitC c * toPoly p := by
+  cases c <;> simp [sel, toPoly_zeros]
 
 theorem toPoly_eq_zero (a : Bits) (h : toPoly a = 0) : a = zeros a.length := by
   induction a with
@@ -152,8 +155,7 @@ theorem toPoly_stepBit (c : CrcConfig) (r : Bits) (b : Bool) (hr : r.length = c.
       toPoly_xor _ _ (by simp [sel_length, polyBits_length, hr']), toPoly_append, toPoly_cons]
     have hsel : toPoly (sel ((x :: r').headD false != b) (polyBits c))
         = bitC (x != b) * toPoly (polyBits c) := by
-      simp only [List.headD_cons, sel]
-      cases (x != b) <;> simp [toPoly_zeros]
+      rw [toPoly_sel]; rfl
     have hxb : bitC (x != b) = bitC x + bitC b := by
       cases x <;> cases b <;> simp [CharTwo.add_self_eq_zero]
     rw [hsel, hxb]
@@ -161,8 +163,14 @@ theorem toPoly_stepBit (c : CrcConfig) (r : Bits) (b : Bool) (hr : r.length = c.
     simp only [toPoly_cons, toPoly_nil, bitC_false, zero_mul, add_zero, List.length_cons,
       List.length_nil, pow_one, zero_add]
     rw [← hr', pow_succ]
-    have h2 : ∀ y : F2[X], y + y = 0 := CharTwo.add_self_eq_zero
-    linear_combination (bitC x + bitC b) * h2 (toPoly (polyBits c)) + h2 (bitC b * (X ^ r'.length * X))
+    have e : (bitC x + bitC b) * toPoly (polyBits c) + (bitC x + bitC b) * toPoly (polyBits c) = 0 :=
+      CharTwo.add_self_eq_zero _
+    calc toPoly r' * X + (bitC x + bitC b) * toPoly (polyBits c)
+          + (X ^ r'.length * X + toPoly (polyBits c)) * (bitC x + bitC b)
+        = (bitC x * X ^ r'.length + toPoly r') * X + bitC b * (X ^ r'.length * X)
+          + ((bitC x + bitC b) * toPoly (polyBits c) + (bitC x + bitC b) * toPoly (polyBits c)) := by
+          ring
+      _ = _ := by rw [e, add_zero]
 
 /-- **Register invariant.**  Started from the content `r`, after the message `m` the register holds
 `(r(x)·x^|m| + m(x)·x^w) mod G`. -/
